@@ -20,6 +20,9 @@
 (*             deadline    context.DeadlineExceeded                        *)
 (*             gosmtp(c)   go-smtp's own *smtp.SMTPError                   *)
 (*             smtp(c,m)   exterrors.SMTPError without a cause             *)
+(*             multi(b)    target/remote's multipleErrs (partial delivery  *)
+(*                         failure; b: a temporary member): annotated      *)
+(*                         through Fields() only, no Temporary() method    *)
 (*                                                                         *)
 (* Prop(t, out)  - declarative: what C16 demands of the outputs            *)
 (* Rule(D, t)    - operational: the conversions as documented, with the    *)
@@ -33,7 +36,8 @@ CONSTANTS Devs,      \* deviations switched on in the model-checking run
           MaxDepth,  \* 1 .. 4
           Gen        \* TRUE: print the case list (one ROW line per term)
 
-AllDevs == {"EnchAlways5", "QueueDropsEnh", "TempOverride", "Mangle128"}
+AllDevs == {"EnchAlways5", "QueueDropsEnh", "TempOverride", "Mangle128", "UnspecRealign",
+            "PipelineRejectEnh"}
 
 NotSet == <<0, 0, 0>>       \* smtp.EnhancedCodeNotSet: go-smtp sends X.0.0
 
@@ -57,6 +61,12 @@ TxtNs == <<110, 115, 46, 105, 110, 116, 101, 114, 110, 97, 108>>     \* "ns.inte
 TxtField == <<102, 49, 101, 108, 100, 115, 101, 99, 114, 101, 116>>  \* "f1eldsecret"
 TxtWrap == <<99, 116, 120, 57, 119, 114, 97, 112>>                   \* "ctx9wrap"
 TxtDeadline == <<100, 101, 97, 100, 108, 105, 110, 101>>             \* "deadline"
+TxtPerRcpt == <<112, 101, 114, 45, 114, 99, 112, 116, 32, 105, 110, 102, 111>>  \* "per-rcpt info"
+\* "Partial delivery failure, additional attempts may result in duplicates"
+MsgPartial == <<80, 97, 114, 116, 105, 97, 108, 32, 100, 101, 108, 105, 118, 101, 114, 121, 32, 102, 97,
+                105, 108, 117, 114, 101, 44, 32, 97, 100, 100, 105, 116, 105, 111, 110, 97, 108, 32, 97,
+                116, 116, 101, 109, 112, 116, 115, 32, 109, 97, 121, 32, 114, 101, 115, 117, 108, 116,
+                32, 105, 110, 32, 100, 117, 112, 108, 105, 99, 97, 116, 101, 115>>
 
 ----------------------------------------------------------------------------
 (* the input space *)
@@ -72,6 +82,7 @@ Leaves == SmtpLayers
           \cup {[k |-> "plain"], [k |-> "deadline"]}
           \cup {[k |-> "net", b |-> b] : b \in BOOLEAN}
           \cup {[k |-> "gosmtp", c |-> c] : c \in {"t", "p"}}
+          \cup {[k |-> "multi", b |-> b] : b \in BOOLEAN}
 
 RECURSIVE WrapSeqs(_)
 WrapSeqs(n) == IF n = 0 THEN {<<>>}
@@ -102,7 +113,7 @@ IsTemporary(t) == Marker(t) = "temp"
 IsTemporaryOrUnspec(t) == Marker(t) # "perm"
 HasDeadline(t) == \E i \in 1..Len(t) : t[i].k = "deadline"
 
-IsAnnLayer(l) == l.k \in {"smtp", "smtph"}
+IsAnnLayer(l) == l.k \in {"smtp", "smtph", "multi"}
 AnnIdx(t) == IF \E i \in 1..Len(t) : IsAnnLayer(t[i])
              THEN CHOOSE i \in 1..Len(t) : IsAnnLayer(t[i]) /\ \A j \in 1..(i - 1) : ~IsAnnLayer(t[j])
              ELSE 0
@@ -111,6 +122,8 @@ AnnIdx(t) == IF \E i \in 1..Len(t) : IsAnnLayer(t[i])
 LayerAnn(D, t, i) ==
   IF t[i].k = "smtp"
   THEN [code |-> CodeTab[t[i].c].code, enh |-> CodeTab[t[i].c].enh, msg |-> MsgTab[t[i].m]]
+  ELSE IF t[i].k = "multi"
+  THEN [code |-> IF t[i].b THEN 451 ELSE 550, enh |-> <<IF t[i].b THEN 4 ELSE 5, 0, 0>>, msg |-> MsgPartial]
   ELSE LET tmp == TempAt(t, i + 1) = "temp" IN
        [code |-> IF tmp THEN 451 ELSE 550,
         enh  |-> <<IF tmp /\ "EnchAlways5" \notin D THEN 4 ELSE 5, 4, 0>>,
@@ -127,6 +140,7 @@ InternalTexts(t) ==
   UNION {CASE t[i].k = "plain"    -> {TxtPlain}
            [] t[i].k = "net"      -> {TxtDns, TxtNs}
            [] t[i].k = "deadline" -> {TxtDeadline}
+           [] t[i].k = "multi"    -> {TxtPerRcpt}
            [] t[i].k = "wrap"     -> {TxtWrap}
            [] t[i].k = "fields"   -> IF t[i].f = "r" THEN {TxtField} ELSE {}
            [] OTHER               -> {} : i \in 1..Len(t)}
@@ -137,12 +151,20 @@ InternalTexts(t) ==
 Class(code) == code \div 100
 
 \* agreement of the reply class with the temporary marker (repair of deviation
-\* TempOverride: an explicit marker around an annotated error wins)
-Align(D, temp, r) ==
-  IF "TempOverride" \in D \/ temp = (Class(r.code) = 4) THEN r
-  ELSE LET c == IF temp THEN 451 ELSE 554 IN
+\* TempOverride: an explicit marker around an annotated error wins); want = the
+\* class the marker asks for, 0 = the marker leaves the annotation alone
+Align(D, want, r) ==
+  IF "TempOverride" \in D \/ want = 0 \/ want = Class(r.code) THEN r
+  ELSE LET c == IF want = 4 THEN 451 ELSE 554 IN
        [r EXCEPT !.code = c,
                  !.enh = IF r.enh = NotSet THEN NotSet ELSE <<Class(c), r.enh[2], r.enh[3]>>]
+\* the endpoint never retries: only an explicit marker may override an annotation
+\* (deviation UnspecRealign: an error without any marker is taken for permanent)
+EndpointWant(D, t) == CASE Marker(t) = "temp" -> 4
+                        [] Marker(t) = "perm" -> 5
+                        [] OTHER -> IF "UnspecRealign" \in D THEN 5 ELSE 0
+\* the queue retries everything that is not marked permanent
+QueueWant(t) == IF IsTemporaryOrUnspec(t) THEN 4 ELSE 5
 
 Mangle(D, m) == [i \in DOMAIN m |->
                    IF (IF "Mangle128" \in D THEN m[i] > 128 ELSE m[i] > 127) THEN 63 ELSE m[i]]
@@ -155,7 +177,7 @@ EndpointRule(D, t, mangle, mid) ==
     LET r0 == [code |-> IF IsTemporary(t) THEN 451 ELSE 554, enh |-> NotSet, msg |-> GenericMsg]
         r1 == IF AnnIdx(t) # 0 THEN LayerAnn(D, t, AnnIdx(t)) ELSE r0
         r2 == IF TopGoSMTP(t) THEN GoAnn(t) ELSE r1
-        r3 == Align(D, IsTemporary(t), r2)
+        r3 == Align(D, EndpointWant(D, t), r2)
         m1 == IF mid THEN r3.msg \o MidSuffix ELSE r3.msg
         m2 == IF mangle THEN Mangle(D, m1) ELSE m1
     IN [mangle |-> mangle, mid |-> mid, code |-> r3.code, enh |-> r3.enh, msg |-> m2]
@@ -172,7 +194,7 @@ QueueRule(D, t) ==
                   msg  |-> a.msg]
             ELSE r0
       r2 == IF TopGoSMTP(t) THEN GoAnn(t) ELSE r1
-  IN Align(D, tou, r2)
+  IN Align(D, QueueWant(t), r2)
 
 EndpointCombos == <<[mangle |-> TRUE, mid |-> TRUE], [mangle |-> TRUE, mid |-> FALSE],
                     [mangle |-> FALSE, mid |-> TRUE], [mangle |-> FALSE, mid |-> FALSE]>>
@@ -204,7 +226,11 @@ Retried(out) == IF out.att.ran THEN out.att.retried ELSE out.tou
 \* names of the predicates that are false on (t, out)
 Viol(t, out) ==
   LET es == {out.e[i] : i \in DOMAIN out.e}
-      agree == Annotated(t) /\ (Marker(t) = "temp") = (Class(AnnOf(t).code) = 4)
+      \* the marker does not contradict the annotation (endpoint: explicit markers only;
+      \* queue: whatever is not marked permanent is retried, so it has to be 4yz)
+      agreeE == Annotated(t) /\ ~(Marker(t) = "temp" /\ Class(AnnOf(t).code) # 4)
+                             /\ ~(Marker(t) = "perm" /\ Class(AnnOf(t).code) # 5)
+      agreeQ == Annotated(t) /\ (Marker(t) # "perm") = (Class(AnnOf(t).code) = 4)
   IN
   (IF \A r \in es : EClassOK(r) THEN {} ELSE {"EClass"})
   \cup (IF QClassOK(out.q.code, out.q.enh)
@@ -220,8 +246,8 @@ Viol(t, out) ==
                                           /\ (~out.tou => Class(r.code) = 5)
         THEN {} ELSE {"ERetry"})
   \* an annotated failure is reported with its annotation
-  \cup (IF agree /\ ~HasDeadline(t) /\ \E r \in es : ~Carries(AnnOf(t), r) THEN {"ECarries"} ELSE {})
-  \cup (IF agree /\ ~Carries(AnnOf(t), out.q) THEN {"QCarries"} ELSE {})
+  \cup (IF agreeE /\ ~HasDeadline(t) /\ \E r \in es : ~Carries(AnnOf(t), r) THEN {"ECarries"} ELSE {})
+  \cup (IF agreeQ /\ ~Carries(AnnOf(t), out.q) THEN {"QCarries"} ELSE {})
   \* nothing that exists only inside the server reaches the client or the report
   \cup (IF \E s \in InternalTexts(t) : (\E r \in es : Occurs(s, r.msg)) \/ Occurs(s, out.q.msg)
         THEN {"NoLeak"} ELSE {})
@@ -244,6 +270,41 @@ HelperSpace == [codeT : {450, 451}, codeP : {550, 554}, base : {<<0, 4, 0>>, <<0
                 temp : BOOLEAN]
 
 ----------------------------------------------------------------------------
+(* replies whose codes are computed at run time (neither a literal nor the    *)
+(* helper pair): the code path is driven with the input c.in, the reply it    *)
+(* produced is [code, enh, temp] (temp = exterrors.IsTemporary of the error)  *)
+
+CompCoherent(o) == LitCoherent(o.code, o.enh) /\ (o.temp <=> Class(o.code) = 4)
+
+\* "reject [code [enh [msg]]]": args = sequence of the given code / enhanced code
+RejectRule(D, site, args) ==
+  LET code == IF Len(args) >= 1 THEN args[1] ELSE 554
+      enh  == IF Len(args) >= 2 THEN args[2]
+              ELSE IF site = "pipeline-reject" /\ "PipelineRejectEnh" \in D THEN <<5, 7, 0>>
+              ELSE <<Class(code), 7, 0>>
+  IN [code |-> code, enh |-> enh, temp |-> Class(code) = 4]
+
+CompRule(D, c) ==
+  CASE c.site = "dmarc-reject" ->           \* msgpipeline applyResults, policy reject
+         IF c.in.verdict = "temperror" THEN [code |-> 450, enh |-> <<4, 7, 1>>, temp |-> TRUE]
+         ELSE [code |-> 550, enh |-> <<5, 7, 1>>, temp |-> FALSE]
+    [] c.site \in {"pipeline-reject", "failaction-reject"} -> RejectRule(D, c.site, c.in.args)
+    [] c.site = "milter-replycode" ->
+         [code |-> c.in.code, enh |-> <<Class(c.in.code), 7, 1>>, temp |-> Class(c.in.code) = 4]
+    [] c.site = "smtpconn-reply" ->         \* a peer's reply passed on; 552 becomes 452 (RFC 5321 4.5.3.1.10)
+         IF c.in.code = 552 THEN [code |-> 452, enh |-> <<4, c.in.enh[2], c.in.enh[3]>>, temp |-> TRUE]
+         ELSE [code |-> c.in.code, enh |-> c.in.enh, temp |-> Class(c.in.code) = 4]
+
+RejectArgs == {<<>>} \cup {<<c>> : c \in {450, 451, 521, 550, 554}}
+              \cup {<<450, <<4, 7, 1>>>>, <<550, <<5, 1, 1>>>>}
+CompSpace ==
+  {[site |-> "dmarc-reject", in |-> [verdict |-> v]] : v \in {"fail", "temperror"}}
+  \cup {[site |-> s, in |-> [args |-> a]] : s \in {"pipeline-reject", "failaction-reject"}, a \in RejectArgs}
+  \cup {[site |-> "milter-replycode", in |-> [code |-> c]] : c \in {450, 451, 550, 554}}
+  \cup {[site |-> "smtpconn-reply", in |-> [code |-> r[1], enh |-> r[2]]] :
+          r \in {<<450, <<4, 2, 0>>>>, <<550, <<5, 1, 1>>>>, <<552, <<5, 3, 4>>>>, <<552, NotSet>>, <<421, NotSet>>}}
+
+----------------------------------------------------------------------------
 (* model checking: one state per term (CHECK_DEADLOCK FALSE) *)
 
 VARIABLE term
@@ -257,6 +318,10 @@ Spec == Init /\ [][Next]_term
 Coherent == Prop(term, Rule(Devs, term, TRUE))
 \* the case list: every visited term is printed once (Gen = TRUE)
 Emit == Gen => PrintT(<<"ROW", ToJson(term)>>)
-HelpersCoherent == \A h \in HelperSpace :
-                     LET o == HelperRule(Devs, h) IN LitCoherent(o.code, o.enh)
+HelpersCoherent == /\ \A h \in HelperSpace :
+                        LET o == HelperRule(Devs, h) IN LitCoherent(o.code, o.enh)
+                   /\ \A c \in CompSpace : CompCoherent(CompRule(Devs, c))
+\* the case list of the computed replies
+EmitComp == Gen /\ Len(term) = 1 /\ term[1].k = "plain" =>
+              PrintT(<<"COMP", ToJson(SetToSeq(CompSpace))>>)
 =============================================================================
